@@ -334,9 +334,36 @@ class Translator:
                 args.append('(%s : %s)' % (lean_ident(fn_) if fn_ else 'a%d' % k, lt))
             lines.append('  | %s%s' % (lean_ident(vname), (' ' + ' '.join(args)) if args else ''))
         self.enum_variants[key] = variants
-        derive = 'BEq, Repr, Inhabited' if 'PartialEq' in en.derives else 'Repr, Inhabited'
-        text = '/-- `enum %s` — %s:%d (`Box` erased, `Vec` = `Array`, `String` = `String`) -/\ninductive %s where\n%s\nderiving %s' % (
-            en.name, en.file, en.line, key, '\n'.join(lines), derive)
+        # a NESTED inductive (a field `Vec<Self>`): `deriving BEq` would produce an opaque `partial def`, about which
+        # nothing can be proved; emit the structural equality (what `derive(PartialEq)` means) as a mutual definition
+        lts = {vn: [lean_type(t, self.struct_fields) for _, t in fts] for vn, (_, fts) in variants.items()}
+        nested = any(lt == 'Array %s' % key for l in lts.values() for lt in l)
+        beq_text = ''
+        if nested and 'PartialEq' in en.derives:
+            arms = []
+            for vname, _, _ in en.variants:
+                l = lts[vname]
+                pa, pb, conj = [], [], []
+                for k, lt in enumerate(l):
+                    if lt == 'Array %s' % key:
+                        pa.append('⟨a%d⟩' % k); pb.append('⟨b%d⟩' % k); conj.append('%s.beqL a%d b%d' % (key, k, k))
+                    elif lt == key:
+                        pa.append('a%d' % k); pb.append('b%d' % k); conj.append('%s.beq a%d b%d' % (key, k, k))
+                    elif key in lt.replace('(', ' ').replace(')', ' ').split():
+                        raise R2LError('enum %s: unsupported nesting `%s` for structural equality' % (en.name, lt), en.file, en.line)
+                    else:
+                        pa.append('a%d' % k); pb.append('b%d' % k); conj.append('a%d == b%d' % (k, k))
+                v = lean_ident(vname)
+                arms.append('  | .%s%s, .%s%s => %s' % (v, ''.join(' ' + x for x in pa), v, ''.join(' ' + x for x in pb),
+                                                        ' && '.join(conj) if conj else 'true'))
+            beq_text = ('\nmutual\n/-- structural equality of `%s` (`derive(PartialEq)`) -/\ndef %s.beq : %s → %s → Bool\n%s\n  | _, _ => false\n'
+                        'def %s.beqL : List %s → List %s → Bool\n  | [], [] => true\n  | x :: xs, y :: ys => %s.beq x y && %s.beqL xs ys\n  | _, _ => false\nend\n'
+                        'instance : BEq %s := ⟨%s.beq⟩') % (en.name, key, key, key, '\n'.join(arms), key, key, key, key, key, key, key)
+            derive = 'Repr, Inhabited'
+        else:
+            derive = 'BEq, Repr, Inhabited' if 'PartialEq' in en.derives else 'Repr, Inhabited'
+        text = '/-- `enum %s` — %s:%d (`Box` erased, `Vec` = `Array`, `String` = `String`) -/\ninductive %s where\n%s\nderiving %s%s' % (
+            en.name, en.file, en.line, key, '\n'.join(lines), derive, beq_text)
         self.output.append((key, text, None))
         self.stats.append(('enum ' + en.name, key, 'inductive', text.count('\n') + 1, en.file, en.line))
         return key
